@@ -596,11 +596,39 @@ pub fn is_type_error(e: &Xerr) -> bool {
     matches!(e, Xerr::TypeError | Xerr::TypeErrorMsg { .. } | Xerr::TypeNotSupported { .. })
 }
 
+/// How this build reports each resource limit, observed once on tiny programs (so that a
+/// reworded message does not change any verdict): (insn, stack, heap) error kinds.
+pub fn limit_kinds() -> &'static (String, String, String) {
+    static K: std::sync::OnceLock<(String, String, String)> = std::sync::OnceLock::new();
+    K.get_or_init(|| {
+        let kind = |f: &dyn Fn(&mut Xstate) -> Xresult| {
+            let mut xs = boot();
+            match f(&mut xs) {
+                Err(e) => err_kind(&e),
+                Ok(()) => machinery_error("calibration: a limit that must refuse did not"),
+            }
+        };
+        let insn = kind(&|xs| {
+            xs.set_insn_limit(Some(3))?;
+            xs.eval("begin repeat")
+        });
+        let stack = kind(&|xs| {
+            xs.set_stack_limit(Some(1))?;
+            xs.eval("1 2 3")
+        });
+        let heap = kind(&|xs| {
+            xs.set_heap_limit(Some(0))?;
+            xs.eval("1 var calibration")
+        });
+        (insn, stack, heap)
+    })
+}
+
+/// `which` starts with "insn", "stack" or "heap"
 pub fn is_limit_error(e: &Xerr, which: &str) -> bool {
-    match e {
-        Xerr::ErrorMsg(m) => m.starts_with(which),
-        _ => false,
-    }
+    let k = limit_kinds();
+    let want = if which.starts_with("insn") { &k.0 } else if which.starts_with("stack") { &k.1 } else { &k.2 };
+    &err_kind(e) == want
 }
 
 pub struct Counters(pub Mutex<BTreeMap<String, u64>>);
